@@ -18,7 +18,7 @@ Judge(e) ==
        \cup Flag((e.k = 0 /\ e.units > 0) => e.err # "nil", "cancelled before the start, yet success")
   ELSE Flag(~e.hung, "the command did not exit after the signal")
        \cup Flag(RecordOK(e.exit = 0, e.complete), "the command exited 0 although its work is incomplete")
-       \cup Flag((e.cmd \in {"extract", "extract-stats"} /\ e.exit # 0) => e.untouched, "an interrupted extract (without --in-place) modified the destination")
+       \cup Flag((e.cmd \in {"extract", "extract-stats", "extract-longname"} /\ e.exit # 0) => e.untouched, "an interrupted extract (without --in-place) modified the destination")
        \cup Flag((e.signalled /\ ~e.complete) => e.exit # 0, "signalled with work outstanding but exit status 0")
 TInit == Init /\ l = 1 /\ bad = {}
 TNext == l <= Len(Trace) /\ bad' = bad \cup Judge(Trace[l]) /\ l' = l + 1 /\ UNCHANGED vars
